@@ -27,6 +27,7 @@ impl Emitter {
     pub fn text(&self) -> String { let mut s = self.lines.join("\n"); s.push('\n'); s }
     fn flush(&mut self) {
         let mut l = std::mem::take(&mut self.cur);
+        if l.contains("hx_other__") { l = l.replace("hx_other__", ""); }   // rule N2: an unrelated method that shares its name with a contracted function
         // `for x in __hx_iter(e)` -> `for x in hx_it: e`
         if let Some(i) = l.find(" in __hx_iter(") {
             let head = l[..i].to_string(); let rest = l[i + " in __hx_iter(".len()..].to_string();
